@@ -1820,72 +1820,79 @@ func (t *itype) fieldSeq(seq []int) *itype {
 	return ft
 }
 
-// lookupField returns a list of indices, i.e. a path to access a field in a struct object.
-func (t *itype) lookupField(name string) []int {
+// walkEmbedded calls f for t, then for the types of its embedded fields, in breadth first order: a field
+// or method declared at the shallowest depth hides those of the same name declared deeper. The path
+// of field indices leading to the embedded field is passed to f. The walk stops when f returns true.
+func (t *itype) walkEmbedded(f func(typ *itype, index []int) bool) {
+	type embedded struct {
+		typ   *itype
+		index []int
+	}
 	seen := map[*itype]bool{}
-	var lookup func(*itype) []int
-	tias := isStruct(t)
 
-	lookup = func(typ *itype) []int {
-		if seen[typ] {
-			return nil
-		}
-		seen[typ] = true
-
-		switch typ.cat {
-		case linkedT, ptrT:
-			return lookup(typ.val)
-		}
-		if fi := typ.fieldIndex(name); fi >= 0 {
-			return []int{fi}
-		}
-
-		for i, f := range typ.field {
-			switch f.typ.cat {
-			case ptrT, structT, interfaceT, linkedT:
-				if tias != isStruct(f.typ) {
-					// Interface fields are not valid embedded struct fields.
-					// Struct fields are not valid interface fields.
-					break
-				}
-				if index2 := lookup(f.typ); len(index2) > 0 {
-					return append([]int{i}, index2...)
+	for queue := []embedded{{typ: t}}; len(queue) > 0; queue = queue[1:] {
+		e := queue[0]
+		for typ := e.typ; typ != nil && !seen[typ]; typ = typ.val {
+			seen[typ] = true
+			if typ.cat == ptrT {
+				continue
+			}
+			if f(typ, e.index) {
+				return
+			}
+			for i, field := range typ.field {
+				if field.embed {
+					queue = append(queue, embedded{field.typ, append(e.index[:len(e.index):len(e.index)], i)})
 				}
 			}
+			if typ.cat != linkedT && typ.cat != interfaceT {
+				break
+			}
 		}
-
-		return nil
 	}
+}
 
-	return lookup(t)
+// lookupField returns a list of indices, i.e. a path to access a field in a struct object.
+func (t *itype) lookupField(name string) (index []int) {
+	tias := isStruct(t)
+
+	t.walkEmbedded(func(typ *itype, path []int) bool {
+		// Interface fields are not valid embedded struct fields.
+		// Struct fields are not valid interface fields.
+		if tias != isStruct(typ) {
+			return false
+		}
+		fi := typ.fieldIndex(name)
+		if fi >= 0 {
+			index = append(path[:len(path):len(path)], fi)
+		}
+		return fi >= 0
+	})
+	return index
 }
 
 // lookupBinField returns a structfield and a path to access an embedded binary field in a struct object.
 func (t *itype) lookupBinField(name string) (s reflect.StructField, index []int, ok bool) {
-	if t.cat == ptrT {
-		return t.val.lookupBinField(name)
-	}
-	if !isStruct(t) {
-		return
-	}
-	rt := t.TypeOf()
-	for t.cat == valueT && rt.Kind() == reflect.Ptr {
-		rt = rt.Elem()
-	}
-	if rt.Kind() != reflect.Struct {
-		return
-	}
-	s, ok = rt.FieldByName(name)
-	if !ok {
-		for i, f := range t.field {
-			if f.embed {
-				if s2, index2, ok2 := f.typ.lookupBinField(name); ok2 {
-					index = append([]int{i}, index2...)
-					return s2, index, ok2
-				}
-			}
+	t.walkEmbedded(func(typ *itype, path []int) bool {
+		if ok && len(path)+1 >= len(index)+len(s.Index) {
+			return true // No shallower field can be found.
 		}
-	}
+		if typ.cat != valueT {
+			return false
+		}
+		rt := typ.rtype
+		for rt.Kind() == reflect.Ptr {
+			rt = rt.Elem()
+		}
+		if rt.Kind() != reflect.Struct {
+			return false
+		}
+		// An unexported field of a binary type belongs to another package: it can not be selected.
+		if s2, ok2 := rt.FieldByName(name); ok2 && s2.IsExported() && (!ok || len(path)+len(s2.Index) < len(index)+len(s.Index)) {
+			s, index, ok = s2, path, true
+		}
+		return false
+	})
 	return s, index, ok
 }
 
@@ -1924,36 +1931,13 @@ func (t *itype) getMethod(name string) *node {
 
 // LookupMethod returns a pointer to method definition associated to type t
 // and the list of indices to access the right struct field, in case of an embedded method.
-func (t *itype) lookupMethod(name string) (*node, []int) {
-	return t.lookupMethod2(name, nil)
-}
-
-func (t *itype) lookupMethod2(name string, seen map[*itype]bool) (*node, []int) {
-	if seen == nil {
-		seen = map[*itype]bool{}
-	}
-	if seen[t] {
-		return nil, nil
-	}
-	seen[t] = true
-	if t.cat == ptrT {
-		return t.val.lookupMethod2(name, seen)
-	}
-	var index []int
-	m := t.getMethod(name)
-	if m == nil {
-		for i, f := range t.field {
-			if f.embed {
-				if n, index2 := f.typ.lookupMethod2(name, seen); n != nil {
-					index = append([]int{i}, index2...)
-					return n, index
-				}
-			}
+func (t *itype) lookupMethod(name string) (m *node, index []int) {
+	t.walkEmbedded(func(typ *itype, path []int) bool {
+		if m = typ.getMethod(name); m != nil {
+			index = path
 		}
-		if t.cat == linkedT || isInterfaceSrc(t) && t.val != nil {
-			return t.val.lookupMethod2(name, seen)
-		}
-	}
+		return m != nil
+	})
 	return m, index
 }
 
@@ -1992,44 +1976,33 @@ func (t *itype) interfaceMethod2(name string, seen map[*itype]bool) *itype {
 
 // methodDepth returns a depth greater or equal to 0, or -1 if no match.
 func (t *itype) methodDepth(name string) int {
+	depth := -1
 	if m, lint := t.lookupMethod(name); m != nil {
-		return len(lint)
+		depth = len(lint)
 	}
-	if _, lint, _, ok := t.lookupBinMethod(name); ok {
-		return len(lint)
+	if _, lint, _, ok := t.lookupBinMethod(name); ok && (depth < 0 || len(lint) < depth) {
+		depth = len(lint)
 	}
-	return -1
+	return depth
 }
 
 // LookupBinMethod returns a method and a path to access a field in a struct object (the receiver).
 func (t *itype) lookupBinMethod(name string) (m reflect.Method, index []int, isPtr, ok bool) {
-	return t.lookupBinMethod2(name, nil)
-}
-
-func (t *itype) lookupBinMethod2(name string, seen map[*itype]bool) (m reflect.Method, index []int, isPtr, ok bool) {
-	if seen == nil {
-		seen = map[*itype]bool{}
-	}
-	if seen[t] {
-		return
-	}
-	seen[t] = true
-	if t.cat == ptrT {
-		return t.val.lookupBinMethod2(name, seen)
-	}
-	for i, f := range t.field {
-		if f.embed {
-			if m2, index2, isPtr2, ok2 := f.typ.lookupBinMethod2(name, seen); ok2 {
-				index = append([]int{i}, index2...)
-				return m2, index, isPtr2, ok2
-			}
+	t.walkEmbedded(func(typ *itype, path []int) bool {
+		if typ.cat == structT {
+			// A binary method is selected on the embedded field which declares it.
+			return false
 		}
-	}
-	m, ok = t.TypeOf().MethodByName(name)
-	if !ok {
-		m, ok = reflect.PtrTo(t.TypeOf()).MethodByName(name)
-		isPtr = ok
-	}
+		m, ok = typ.TypeOf().MethodByName(name)
+		if !ok {
+			m, ok = reflect.PtrTo(typ.TypeOf()).MethodByName(name)
+			isPtr = ok
+		}
+		if ok {
+			index = path
+		}
+		return ok
+	})
 	return m, index, isPtr, ok
 }
 
